@@ -31,7 +31,7 @@ from .gather_helpers import get_gir_output_shape
 from .gather_compile import compile_to_gir
 
 
-_CONST_HANDLERS_REGISTERED: bool = False
+_CONST_HANDLERS_FLAG = "_gather_const_handlers_registered"
 
 
 def _as_value(value: Any) -> ir.Value:
@@ -44,13 +44,15 @@ def _as_dim_tuple(dims: tuple[Any, ...] | list[Any]) -> tuple[DimInput, ...]:
 
 
 def _ensure_constant_folders_registered(ctx: LoweringContextProtocol) -> None:
-    global _CONST_HANDLERS_REGISTERED
-    if _CONST_HANDLERS_REGISTERED:
+    # The evaluators live in the constant folder of *this* conversion context.
+    # A process-wide "already done" flag registered them for the first
+    # conversion only, so a second export of the same function produced a
+    # different (unfolded) graph.  Remember it on the context instead.
+    if getattr(ctx, _CONST_HANDLERS_FLAG, False):
         return
 
     register = getattr(ctx, "register_constant_evaluator", None)
     if not callable(register):
-        _CONST_HANDLERS_REGISTERED = True
         return
 
     from jax import lax
@@ -85,7 +87,10 @@ def _ensure_constant_folders_registered(ctx: LoweringContextProtocol) -> None:
         except Exception:
             continue
 
-    _CONST_HANDLERS_REGISTERED = True
+    try:
+        setattr(ctx, _CONST_HANDLERS_FLAG, True)
+    except Exception:
+        pass
 
 
 def _is_integer_dtype(dtype: Any) -> bool:
